@@ -233,7 +233,9 @@ Proof.
       * right. apply K. apply in_or_app. left. rewrite <- Hp. apply Hbuild. fold d. rewrite Hp. exact Hu.
       * right. apply K. apply in_or_app. now right.
     + right. apply K. apply in_or_app. now left.
-  - unfold layerconfig_path in Hp. fold d in Hp, Hc. rewrite Hp in Hc. discriminate.
+  - unfold layerconfig_path in Hp. fold d in Hp, Hc.
+    change (bs "layerconfig"%string) with D_LayerconfigFile in Hc.   (* the predicate spells the name out; Properties/C09.v C09_constants_pinned *)
+    rewrite Hp in Hc. discriminate.
   - discriminate.
 Qed.
 
@@ -385,6 +387,9 @@ Proof.
   assert (Hreal : e_pretend e = false).
   { unfold plain_env in Hpe. apply andb_true_iff in Hpe as [H _]. now apply negb_true_iff in H. }
   unfold C09.step_spec. unfold view_of_model. unfold run.
+  (* the predicate spells the suffix out; the model takes it from the regenerated constant
+     (equal by computation as long as Properties/C09.v C09_constants_pinned holds) *)
+  change (bs "~removed"%string) with D_RemovedLayerSuffix.
   destruct (run_command e c um (CRemove n false) (MkSt (world_of w) 0 [])) as [o st] eqn:ER.
   cbn [v_cmd v_env v_after v_res wo_fs]. rewrite Hpe. cbn [negb]. fold f.
   destruct (layer_named c f n) as [x|] eqn:Ex; [|reflexivity].
